@@ -34,6 +34,7 @@ type ncConfig struct {
 	hello        string // overrides the default hello
 	extra        []util.Option
 	reply        func(s *simdev.NCServer, r simdev.NCRequest) []byte
+	replyMulti   func(s *simdev.NCServer, r simdev.NCRequest) [][]byte
 }
 
 func newNcSession(c ncConfig) (*ncSession, error) {
@@ -51,9 +52,10 @@ func newNcSession(c ncConfig) (*ncSession, error) {
 		hello = simdev.HelloXML(append(caps, "urn:example:cap:1.0"), "42", "", true, false)
 	}
 
-	srv := &simdev.NCServer{Hello: hello, Advertises: map[string]bool{"1.0": c.adv10, "1.1": c.adv11}, Echo: c.echo, Reply: c.reply}
+	srv := &simdev.NCServer{Hello: hello, Advertises: map[string]bool{"1.0": c.adv10, "1.1": c.adv11}, Echo: c.echo, Reply: c.reply, ReplyMulti: c.replyMulti}
 	pipe := simdev.NewPipe(srv, c.seed)
 	pipe.Seg = c.seg
+	pipe.MsgBounds = true // one read never carries bytes of two server messages
 	pipe.ReadDelay = c.devDelay
 
 	if c.timeout == 0 {
